@@ -79,7 +79,7 @@ Lemma rescale_x_centered eps (X Z : dm R) mu sd : 0 < eps -> wfR X -> (0 < nrows
 Proof.
   intros Heps Hwf Hn Hr j Hj.
   destruct (rescale_x_spec eps X Z mu sd Heps Hwf Hr) as [Em [Es [_ [_ [_ [_ [_ [_ [Hsd _]]]]]]]]].
-  unfold rescale_x in Hr. destruct (existsb _ _); [discriminate|].
+  apply rescale_x_some_old in Hr. unfold rescale_x_old in Hr. destruct (existsb _ _); [discriminate|].
   destruct (D.scale ROps X (D.mean ROps X true) (D.std ROps X true) true) as [Z'|] eqn:Hsc; [|discriminate].
   injection Hr as <- _ _.
   pose proof (ProofsRed.scale_mean_std_centered X true Z' j Hsc Hj Hn) as H.
